@@ -25,7 +25,7 @@ CHECKS = {
    "trusts the model's statement of the resolution rule (old name if it currently exists, else new name)",
    "property-based testing: workspace generator with name-resolution model; oracle = model comparison + agreement of three execution modes"),
  "C17": ("exploration",
-   "generated workspaces put into a consistent 'm patches applied' state and then made inconsistent in one of ~14 ways (applied-patches edited/unreadable/reordered/longer, unknown or applied goal, patch missing, a directory, or unparseable at any position); exit status must be exactly 1 with a message and the full snapshot unchanged",
+   "generated workspaces put into a consistent 'm patches applied' state and then made inconsistent in one of ~16 ways (applied-patches edited/unreadable/reordered/longer, unknown or applied goal, patch missing, a directory, or unparseable at any position); exit status must be exactly 1 with a message and the full snapshot unchanged",
    "blank lines/comments in applied-patches are treated as consistent (the tool accepts them)",
    "property-based testing: generated inconsistent states; oracle = exit status 1 + unchanged snapshot invariant"),
  "C19": ("exploration",
@@ -38,7 +38,7 @@ CHECKS = {
    "property-based testing: workspace generator with model T_0..T_n; oracle = expected backup set by construction + simulated quilt pop"),
  "C09": ("exploration",
    "generated histories: a push to goal g cut into 1-5 invocations (push / push N / push <name> / -a, own options each) versus one invocation on a fresh copy; trees (files and directories), rejects and applied-patches must be identical; an extra push with nothing to do must leave the full snapshot (inodes, mtimes) untouched, a repeat of a failed push must fail identically",
-   "backup directories are not compared across differently split runs; one open known finding (a path that changes between file and directory within one invocation) is tolerated by an exact signature and its shape excluded from the generators",
+   "backup directories are not compared across differently split runs; two open known findings (a path that changes between file and directory within one invocation; an empty start directory in which a file is created and deleted again) are tolerated by exact signatures and their shapes excluded from the generators",
    "property-based testing: stateful histories of invocations with a metamorphic (split vs single) oracle"),
  "C10": ("exploration",
    "generated workspaces incl. failing series, stale .pc/<patch>/ directories and dangling symbolic links at files to be created, run with --dry-run under all option combinations; full recursive snapshot (bytes, modes, inodes, link counts, pinned mtimes of files and directories) must be unchanged and exit status / failing patch must equal a real run on a copy",
